@@ -75,7 +75,7 @@ PROPS = {
         "assumptions": ["element sizes (size_of::<T>()) are passed by the harness"],
     },
     "C05": {
-        "modules": ["Ark.Props.C05a", "Ark.Props.C05b", "Ark.Props.C05"],
+        "modules": ["Ark.Props.C05a", "Ark.Props.C05b", "Ark.Props.C05", "Ark.Props.C05c"],
         "rule": "one op line per MSM entry point / digit recoding / accumulator history; distinct = distinct op line; non-trivial = non-empty inputs with scalars outside {0,1}",
         "exhaustive": ["all (bases, scalars) on the order-7 toy curve (single window); every add/finalize history of length <= 6 x buffer sizes 0..9"],
         "partial": [],
